@@ -18,7 +18,7 @@ HOOKS = {
 
 ENGINES = [
     {'name': 'vf', 'path': 'vf/harness.py',
-     'serves_properties': ['C01', 'C02', 'C03', 'C04', 'C05', 'C06', 'C10', 'C07', 'C08', 'C09', 'C13', 'C14', 'C15', 'C16', 'C17', 'C18', 'C19', 'C20'],
+     'serves_properties': ['C01', 'C02', 'C03', 'C04', 'C05', 'C06', 'C10', 'C07', 'C08', 'C09', 'C12', 'C13', 'C14', 'C15', 'C16', 'C17', 'C18', 'C19', 'C20'],
      'kind_free_text': ('runtime monitoring driver: 16 worker processes import the real '
                         'openhtf from /repo, run enumerated + seeded cases, monitors '
                         'decide each property from observed events; witnesses are '
@@ -267,5 +267,21 @@ CHECKS = {
                  'sent all it waited for (lost wake-up witness), no thread hangs'),
         'note': ('preemption bound 1 plus stress; 6 s call time-outs serve only as the end of a lost-wake-up witness; trusts '
                  'vf/fakeadb.py'),
+    },
+    'C12': {
+        'level': 'exploration',
+        'technique': 'runtime monitoring under virtual time (phase_executor.time and PhaseExecutorThread.join replaced by a discrete-event clock) plus sys.monitoring pause-point schedules of kill() against a KillableThread subclass',
+        'text': ('(t) every combination of position {plain, group setup, main, teardown} x time-out {10 s, 1 s, 0, default} x body '
+                 'end {deadline-2P, -eps, +eps, +P-eps, +P+eps, never (killable), never (unkillable), unkillable then acting '
+                 'later} x repeat_on_timeout x own result: no TIMEOUT and own result kept before the deadline, TIMEOUT at or '
+                 'after deadline+P (either in between), what follows starts within deadline+P of virtual time and within a real '
+                 'watchdog, teardown phases and plug tearDown still run, outcome TIMEOUT, re-invocation only with '
+                 'repeat_on_timeout, an abandoned body\'s later measurement / log / STOP does not reach another phase\'s record; '
+                 '(k) kill() performed while the thread is held at every reached line of threads.py (2 hits), the killer held '
+                 'at every line of kill(), kill before start, mid-body, twice, after exit, with a raising body: body prevented '
+                 'or killed, no effect once the running lock is released, finish handler always completes, no '
+                 'ThreadTerminationError in a bystander thread'),
+        'note': ('P is read from the module; leaving the `with self._running_lock` block counts as "body still running"; thread-id '
+                 'reuse in async_raise is out of reach'),
     },
 }
